@@ -13,6 +13,7 @@ fn table() -> Vec<(&'static str, RunFn, ReplayFn, &'static str)> {
         ("C06", vh::c06::run, vh::c06::replay, vh::c06::RULE),
         ("C07", vh::c07::run, vh::c07::replay, vh::c07::RULE),
         ("C08", vh::c08::run, vh::c08::replay, vh::c08::RULE),
+        ("C09", vh::c09::run, vh::c09::replay, vh::c09::RULE),
         ("C10", vh::c10::run, vh::c10::replay, vh::c10::RULE),
         ("C11", vh::c11::run, vh::c11::replay, vh::c11::RULE),
         ("C13", vh::c13::run, vh::c13::replay, vh::c13::RULE),
@@ -21,6 +22,7 @@ fn table() -> Vec<(&'static str, RunFn, ReplayFn, &'static str)> {
         ("C16", vh::c16::run, vh::c16::replay, vh::c16::RULE),
         ("C17", vh::c17::run, vh::c17::replay, vh::c17::RULE),
         ("C18", vh::c18::run, vh::c18::replay, vh::c18::RULE),
+        ("C19", vh::c19::run, vh::c19::replay, vh::c19::RULE),
     ]
 }
 
